@@ -15,7 +15,7 @@ LEVEL = "fault_enumeration"
 FORCED_OK = True
 TECHNIQUE = "deterministic simulation with enumerated fault injection: within each generated scenario a probe model is made to raise at every (run, step, model position), one position per simulated execution, cycling through every built-in Exception class constructible from a message (about 45) plus a user-defined class with a two-argument constructor; exposure, sequential observation and parallel observation under the seeded scheduler (failure in the eager first run or in any task under any completion order); oracles over the exception seen by the caller and the probe call log"
 LEVEL_TEXT = "fault enumeration over crash points: all (failing run, step, position) of each generated scenario are injected in turn (bounded per scenario by the tier), classes rotated so that every class meets every mode; schedules for the parallel path are sampled"
-LEVEL_NOTE = "trusted: probe raises exactly at the planned call; calibration phases (initial population / evolution) are injected by the C10/C11 engine (clause C09 there); pygmo re-raises as RuntimeError with embedded traceback, so only message and names are demanded there"
+LEVEL_NOTE = "trusted: probe raises exactly at the planned call; calibration phases (initial population / evolution) are injected in the calibration variant (every 16th scenario) through the same scheduler; pygmo re-raises as RuntimeError with embedded traceback, so only message and names are demanded there"
 RULE = (
     "base scenario (2..4 enabled probe models, 1..3 steps, exposure | sequential observation | parallel observation with 1..2 swept parameters) x injection index j -> (failing level value or unconditional, step, model position, exception class); "
     "distinct = distinct (base scenario, position, class); non-trivial = the failure is not at the very first model call of the very first run"
@@ -31,7 +31,7 @@ K = {"quick": 12, "thorough": 24}
 from ..probes import EXC as _EXC  # noqa: E402
 
 EXCS = sorted(_EXC)
-REQUIRED_REACH = ["variant:exposure", "variant:obs-seq", "variant:obs-par", "par_failure_lazy", "par_failure_eager", "later_run_fails"] + ["exc:" + e for e in EXCS]
+REQUIRED_REACH = ["variant:calibration", "cal_phase:initial", "cal_phase:evolution", "variant:exposure", "variant:obs-seq", "variant:obs-par", "par_failure_lazy", "par_failure_eager", "later_run_fails"] + ["exc:" + e for e in EXCS]
 
 
 def _base(rng, tier):
@@ -85,7 +85,27 @@ def positions(scn):
     return out
 
 
+def _calibration(seed, i, tier):
+    """Calibration variant: fail the n-th evaluation (initial population or evolution phase)."""
+    from .. import calib
+
+    rng = random.Random(engine.splitmix(seed, "C09-cal", i))
+    scn = calib.gen_calibration(rng, tier, fit_ranges="full", multi_readout_p=0.0, weights_p=0.0, n_targets=(1, 1, 2), islands=(1, 2))
+    m = scn["mode"]
+    scn["variant"] = "calibration"
+    n_init = m["num_islands"] * m["algorithm"]["population_size"] * m["n_targets"]
+    phase = rng.choice(["initial", "evolution", "evolution"])
+    per_evo = m["num_islands"] * m["algorithm"]["population_size"] * m["algorithm"]["generations"] * m["n_targets"]
+    call = rng.randrange(n_init) if phase == "initial" else n_init + rng.randrange(max(1, per_evo * m["num_evolutions"] - 1))
+    exc = EXCS[i % len(EXCS)]
+    scn["inject"] = {"model": "cal", "call": call, "exc": exc, "phase": phase}
+    scn["pipeline"]["charge_collection"][0]["arguments"]["fail"] = {"call": call, "exc": exc}
+    return scn
+
+
 def generate_indexed(seed, i, tier):
+    if i % 16 == 15:
+        return _calibration(seed, i, tier)
     k = K[tier]
     b, j = divmod(i, k)
     rng = random.Random(engine.splitmix(seed, "C09-base", b))
@@ -110,6 +130,8 @@ def generate(rng, tier):  # pragma: no cover - engine uses generate_indexed
 
 
 def shrink(scn):
+    if scn.get("variant") == "calibration":
+        return
     inj = scn["inject"]
     for g, ms in scn["pipeline"].items():
         for k, m in enumerate(ms or []):
@@ -173,7 +195,50 @@ def _check_exc(exc, scn, variant, viol, combo=None, feat=""):
                 break
 
 
+def execute_calibration(scn, forced=None):
+    from .. import calib
+
+    viol, stats = [], {"variant:calibration": 1}
+    inj = scn["inject"]
+    stats["exc:" + inj["exc"]] = 1
+    stats["cal_phase:" + inj["phase"]] = 1
+    rec = calib.run_calibration(scn, forced=forced)
+    sim = rec.get("sim") or {}
+    fired = any(ev.get("raised") for ev in rec["hist"])
+    feat = f"calibration+{inj['phase']}"
+    if not fired:
+        stats["cal_fault_not_reached"] = 1
+        if rec["exc"] is not None:
+            viol.append({"clause": "C09.spurious", "signature": f"C09.spurious@{feat}", "detail": repr(rec["exc"])[:300]})
+    else:
+        exc = rec["exc"]
+        if exc is None:
+            viol.append({"clause": "C09.raises", "signature": f"C09.raises@{feat}", "detail": {"note": "a model failed during the calibration but run_mode returned a result", "inject": inj}})
+        elif type(exc).__name__ == "SimDeadlock":
+            viol.append({"clause": "C09.liveness", "signature": f"C09.liveness@{feat}", "detail": str(exc)})
+        else:
+            text = _notes(exc)
+            if f"injected:cal:{inj['exc']}" not in text:
+                viol.append({"clause": "C09.message", "signature": f"C09.message@{feat}+{inj['exc']}", "detail": {"got": repr(exc)[:400]}})
+            if "charge_collection" not in text or "cal" not in text:
+                viol.append({"clause": "C09.identity", "signature": f"C09.identity@{feat}", "detail": {"text": text[-600:]}})
+            if inj["phase"] == "initial" and type(exc).__name__ != inj["exc"]:
+                viol.append({"clause": "C09.type", "signature": f"C09.type@{feat}+{inj['exc']}->{type(exc).__name__}", "detail": repr(exc)[:300]})
+    return {
+        "violations": viol,
+        "stats": stats,
+        "nontrivial": fired and inj["call"] > 0,
+        "key": hashlib.sha256(engine.jdump([scn["mode"]["algorithm"], scn["mode"]["num_islands"], inj]).encode()).hexdigest()[:16],
+        "digest": (sim.get("digest") or "") + ":" + obs.hist_digest(rec["hist"]),
+        "sim_time": float(sim.get("now") or 0.0),
+        "decisions": sim.get("decisions") or [],
+        "sample": {"variant": "calibration", "inject": inj, "islands": scn["mode"]["num_islands"]},
+    }
+
+
 def execute(scn, forced=None):
+    if scn.get("variant") == "calibration":
+        return execute_calibration(scn, forced)
     viol, stats = [], {}
     variant, inj = scn["variant"], scn["inject"]
     stats["variant:" + variant] = 1
